@@ -22,6 +22,10 @@ func main() {
 		os.Exit(2)
 	}
 	id := os.Args[1]
+	if id == "debug-specs" {
+		debugSpecs(os.Args[2:])
+		return
+	}
 	fs := flag.NewFlagSet("verif", flag.ExitOnError)
 	tier := fs.String("tier", "", "quick or thorough")
 	replay := fs.String("replay", "", "replay file")
@@ -43,11 +47,26 @@ func main() {
 		fmt.Fprintf(os.Stderr, "infrastructure: %v\n", err)
 		os.Exit(2)
 	}
-	_ = replay
 	var ev *core.Evidence
+	if *replay != "" {
+		code := 2
+		switch id {
+		case "C13":
+			code, err = stagea.ReplayC13(*replay, rep)
+		default:
+			fmt.Fprintf(os.Stderr, "replay not supported for %s\n", id)
+		}
+		if err != nil {
+			fmt.Fprintf(os.Stderr, "infrastructure: %v\n", err)
+			os.Exit(2)
+		}
+		os.Exit(code)
+	}
 	switch id {
 	case "C14":
 		ev, err = stagea.CheckC14(*tier, seed, rep)
+	case "C13":
+		ev, err = stagea.CheckC13(*tier, seed, rep)
 	default:
 		fmt.Fprintf(os.Stderr, "unknown check %q\n", id)
 		os.Exit(2)
